@@ -263,6 +263,21 @@ func (e *c11env) open() error {
 	return nil
 }
 
+// reopen starts the next incarnation of the store. The goroutines of the previous incarnation cannot be killed the way a
+// process restart kills them: if one of its packing jobs is still removing small meta blobs, the new incarnation's
+// start-up scan can be handed a name that is gone a moment later ("does not exist"). That overlap is the harness', not the
+// store's: the old job is given time to finish and the start-up is tried again; a second failure counts.
+func (e *c11env) reopen() error {
+	err := e.open()
+	for try := 0; err != nil && strings.Contains(err.Error(), "does not exist") && try < 2; try++ {
+		time.Sleep(300 * time.Millisecond)
+		e.settle()
+		e.c.count("steps", "start-up repeated (the previous incarnation was still packing)")
+		err = e.open()
+	}
+	return err
+}
+
 // settle waits until the wrapped meta store and the meta index have seen no activity for a few milliseconds (packing
 // goroutines most likely done; a checkpoint taken while one is still at work is consistent all the same: views() looks
 // at the store and at the events since the last look under one lock)
@@ -643,7 +658,7 @@ func c11FullBoundary(c *ctx, dir string) {
 		}
 		check("after the uploads (compaction across the boundary)", want)
 		e.settle()
-		if err := e.open(); err != nil {
+		if err := e.reopen(); err != nil {
 			c.violation(-1, "c11-restart-failed", where+": restart with an empty meta index failed: "+err.Error(), nil)
 			continue
 		}
@@ -805,7 +820,7 @@ func c11Scenario(c *ctx, dir string, si int) {
 					c11kvKeep[fmt.Sprintf("%s-%d", e.tag, e.opens)] = e.kv
 					c11kvMu.Unlock()
 				}
-				if err := e.open(); err != nil {
+				if err := e.reopen(); err != nil {
 					c.violation(len(c.casesBuf), "c11-restart-failed", fmt.Sprintf("restart over untampered stores failed: %v", err), e.human)
 					break
 				}
